@@ -241,3 +241,46 @@ Example C10_lex_marks_ex :
   map (fun t => (tpos t, tcat t)) (toks_of s) =
   [(0%Z, TText); (1%Z, TComment); (3%Z, TText); (5%Z, TEscapedComment); (7%Z, TComment)].
 Proof. vm_compute. repeat split. Qed.
+
+(* "a\\\b": the run of three escapes starts at offset 1, a boundary *)
+Example C10_run_start_boundary_ex :
+  let s := [97; 92; 92; 92; 98]%N in
+  clean s = true /\ start_quirk s = false /\ s = ([97] ++ 92 :: [92; 92; 98])%N /\
+  is_c CEscape 92%N = true /\ ends_escape [97]%N = false /\
+  inside_b s TComment 1 = false /\ inside_b s TPunctuationCommandName 1 = false /\
+  boundary_b s 1 = true.
+Proof. vm_compute. repeat split. Qed.
+
+(* "a\\b": the second escape (offset 2) is not at a boundary: it is the second
+   character of the EscapedComment token "\\" that starts at the boundary 1 *)
+Example C10_escape_not_boundary_ex :
+  let s := [97; 92; 92; 98]%N in
+  clean s = true /\ start_quirk s = false /\ s = ([97; 92] ++ 92 :: [98])%N /\
+  boundary_b s 2 = false /\ inside_b s TComment 2 = false /\
+  inside_b s TPunctuationCommandName 2 = false /\ boundary_b s 1 = true /\
+  map (fun t => (ttext t, tpos t, tcat t)) (toks_of s) =
+  [([97]%N, 0%Z, TText); ([92; 92]%N, 1%Z, TEscapedComment); ([98]%N, 3%Z, TCommandName)].
+Proof. vm_compute. repeat split. Qed.
+
+(* first comment character on the second line of "x%y<LF>a\\%b" *)
+Example C10_first_pct_on_line_ex :
+  let s := [120; 37; 121; 10; 97; 92; 92; 37; 98]%N in
+  clean s = true /\ start_quirk s = false /\
+  s = (([120; 37; 121; 10] ++ [97]) ++ [92; 92] ++ 37 :: [98])%N /\
+  [120; 37; 121; 10]%N = ([120; 37; 121] ++ [10])%N /\ is_c CEndOfLine 10%N = true /\
+  no_pct [97]%N = true /\ ends_escape ([120; 37; 121; 10] ++ [97])%N = false /\
+  map (fun t => (ttext t, tpos t, tcat t)) (toks_of s) =
+  [([120]%N, 0%Z, TText); ([37; 121]%N, 1%Z, TComment); ([10; 97]%N, 3%Z, TText);
+   ([92; 92]%N, 5%Z, TEscapedComment); ([37; 98]%N, 7%Z, TComment)].
+Proof. exact first_pct_on_line_ex. Qed.
+
+(* "x%y<LF>a\\%b" and "$%}<LF>[\\%[" agree on the three classes and on nothing else *)
+Example C10_comment_starts_by_class_ex :
+  let s1 := [120; 37; 121; 10; 97; 92; 92; 37; 98]%N in
+  let s2 := [36; 37; 125; 10; 91; 92; 92; 37; 91]%N in
+  clean s1 = true /\ start_quirk s1 = false /\ clean s2 = true /\ start_quirk s2 = false /\
+  Forall2 same_class s1 s2 /\
+  map (fun t => (tpos t, tcat t)) (toks_of s2) =
+  [(0%Z, TMathSwitch); (1%Z, TComment); (3%Z, TMergedSpacer); (4%Z, TBracketBegin);
+   (5%Z, TEscapedComment); (7%Z, TComment)].
+Proof. exact comment_starts_by_class_ex. Qed.
